@@ -1,5 +1,30 @@
 package c08
 
-import "wzverif/internal/kit"
+import (
+	"regexp"
+	"strconv"
 
-var findings = []kit.Finding[Case]{}
+	"wzverif/internal/kit"
+)
+
+const kfSetterLeak = "KF-C08-rejected-setter-creates-sectpr"
+
+// leakKinds are the convenience page setters whose argument can be rejected only AFTER they have read the current
+// settings through GetPageSettings (which creates the section element when the body has none): SetCustomPageSize
+// with a size outside 12.7..558.8 mm and SetPageOrientation with an unknown orientation.
+var leakKinds = map[string]bool{"custompage": true, "orientraw": true}
+
+var reLeak = regexp.MustCompile(`\[setter-leak op=(\d+) kind=(\w+)\]$`)
+
+var findings = []kit.Finding[Case]{
+	{ID: kfSetterLeak, Clause: "C08.L5",
+		Desc: "SetCustomPageSize / SetPageOrientation that return an error (size out of range, unknown orientation) on a body without section settings still append an empty SectionProperties element: they read the current settings through GetPageSettings, whose lookup creates the element, before SetPageSettings validates",
+		Trigger: func(c Case, f kit.Failure) bool {
+			g := reLeak.FindStringSubmatch(f.Detail)
+			if g == nil {
+				return false
+			}
+			n, err := strconv.Atoi(g[1])
+			return err == nil && n < len(c.Ops) && c.Ops[n].K == g[2] && leakKinds[g[2]]
+		}},
+}
